@@ -195,6 +195,18 @@ def run_case(ctx, name, params):
             ctx.violation("gsd/complementary_cover", "complementary designs do not make up the full factorial "
                           "(%d of %d runs)" % (len(set(allrows)), len(full)), wit())
             return
+        for nn in range(2, red):
+            try:
+                dk = doe.build_gsd(levels, red, nn)
+            except ValueError:
+                continue
+            sk = [[tuple(int(x) for x in row) for row in d] for d in dk]
+            ctx.count("gsd_partial_complementary_families")
+            allk = [x for s_ in sk for x in s_]
+            if len(sk) != nn or len(set(allk)) != len(allk) or not set(allk) <= full or sk != sets[:nn]:
+                ctx.violation("gsd/complementary_partial", "%d complementary designs for reduction %d are not %d pairwise disjoint "
+                              "subsets of the full factorial (the first %d of the complete family)" % (nn, red, nn, nn), wit())
+                return
         ctx.nontrivial(("gsd", tuple(levels), red))
         ctx.count("cases")
         ctx.sample({"generator": "gsd", "levels": levels, "reduction": red, "rows": len(rows), "first": rows[:3]}, "gsd")
